@@ -289,6 +289,11 @@ def _check_waiter(world, slot):
     end_kind = 'TimeoutError' if (cancel_at is None or deadline < cancel_at) else 'CancelledError'
     if may is not None and not got_exc and same(got, may):
         return None
+    late_any = any(str(t).startswith('slowcpu') for t in world.trace)
+    if not got_exc and late_any and any(
+            idx >= call_idx and _ref_match(kind, src, msg) and same(got, msg) for idx, t, src, msg in world.obs_msgs):
+        # a late loop: the call registered its time-out later than the harness' clock reading of the call
+        return None
     if not got_exc:
         return Violation(
             'spurious-completion', f"waiter {name} completed with {got!r} although no matching message "
